@@ -25,7 +25,8 @@ from ..core import Violation, HarnessError, check, close, maxdiff, fingerprint
 
 THEORIES = [("stR", {}), ("stR", {"as_operators": True}), ("stR", {"secular_relaxation": True}), ("stR", {"time_dependent": True}),
             ("stF", {}), ("stF", {"time_dependent": True}), ("cRF", {"coupling_cutoff": 50.0}),
-            ("stR", {"time_dependent": True, "as_operators": True}), ("cRF", {"time_dependent": True})]
+            ("stR", {"time_dependent": True, "as_operators": True}), ("cRF", {"time_dependent": True}),
+            ("neF", {"time_dependent": True})]
 TOL = 1e-11
 
 
@@ -86,19 +87,22 @@ class Built:
             self.sys[j] = build_system(self.specs[j])
         return self.sys[j]
 
-    def tensor(self, j, th, unit=None):
+    def tensor(self, j, th, unit=None, recalc=True):
         import quantarhei as qr
-        key = (j, th, unit)
+        key = (j, th, unit, recalc)
         if key not in self.tensors:
             agg = self.system(j)
-            self.tensors[key] = relaxation_tensor(agg, th, unit)
+            self.tensors[key] = relaxation_tensor(agg, th, unit, recalc)
         return self.tensors[key]
 
 
-def relaxation_tensor(agg, th, unit):
-    """get_RelaxationTensor, optionally requested inside a units context (a cut-off is then meant in those units)."""
+def relaxation_tensor(agg, th, unit, recalc=True):
+    """get_RelaxationTensor, optionally requested inside a units context (a cut-off is then meant in those units) and
+    optionally with the documented recalculate=False."""
     import quantarhei as qr
     name, kw = THEORIES[th]
+    if not recalc:
+        kw = dict(kw, recalculate=False)
     ta = agg.get_SystemBathInteraction().TimeAxis
     if unit is None:
         return agg.get_RelaxationTensor(ta, relaxation_theory=name, **kw)
@@ -129,7 +133,8 @@ def evaluate(expr, systems, shared=None):
     B = shared if shared is not None else Built(systems)
     kind = expr["kind"]
     if kind == "tensor":
-        RT, ham = B.tensor(expr["sys"], expr["th"], expr.get("unit")) if shared is None else shared.new_tensor(expr["sys"], expr["th"], expr.get("unit"))
+        RT, ham = (B.tensor(expr["sys"], expr["th"], expr.get("unit"), expr.get("recalc", True)) if shared is None
+                   else shared.new_tensor(expr["sys"], expr["th"], expr.get("unit"), expr.get("recalc", True)))
         out = tensor_fields(RT)
         out["H"] = numpy.array(ham.data)
         return out
@@ -212,7 +217,7 @@ def evaluate(expr, systems, shared=None):
         rho = qr.ReducedDensityMatrix(data=state_array(H2.dim, {"kind": "site", "k": 0}))
         return {"rhot": numpy.array(kp.propagate(rho).data)}
     if kind == "eso":
-        RT, ham = B.tensor(expr["sys"], expr["th"], expr.get("unit")) if shared is None else shared.get_tensor(expr["sys"], expr["th"])
+        RT, ham = B.tensor(expr["sys"], expr["th"], expr.get("unit"), expr.get("recalc", True)) if shared is None else shared.get_tensor(expr["sys"], expr["th"])
         U = qr.qm.EvolutionSuperOperator(time=qr.TimeAxis(0.0, expr["nt"], expr["dt"]), ham=ham, relt=RT, mode="all")
         U.set_dense_dt(expr["dense"])
         U.calculate()
@@ -241,7 +246,7 @@ def make_rdm_prop(B, pexpr):
         if pd is None:
             return qr.ReducedDensityMatrixPropagator(axis, agg.get_Hamiltonian())
         return qr.ReducedDensityMatrixPropagator(axis, agg.get_Hamiltonian(), PDeph=pd)
-    RT, ham = B.tensor(pexpr["sys"], pexpr["th"], pexpr.get("unit"))
+    RT, ham = B.tensor(pexpr["sys"], pexpr["th"], pexpr.get("unit"), pexpr.get("recalc", True))
     if pd is None:
         return qr.ReducedDensityMatrixPropagator(axis, ham, RTensor=RT)
     return qr.ReducedDensityMatrixPropagator(axis, ham, RTensor=RT, PDeph=pd)
@@ -300,7 +305,9 @@ class World:
                        "refinement_setting_sticky", "sv_reused", "pop_reused", "eso_after_propagation", "in_between_computation",
                        "same_call_repeated", "propagation_matrix_with_corrections", "propagation_inside_basis_context",
                        "same_propagator_in_two_different_contexts", "tensor_requested_inside_units_context", "pure_dephasing_propagator",
-                       "refused_call_in_history"]
+                       "refused_call_in_history", "hierarchy_shared_by_two_propagators",
+                       "tensor_requested_without_recalculation_after_another", "tensor_with_inhomogeneous_term",
+                       "inhomogeneous_tensor_shared_by_two_propagators"]
     required_faults = []
     components = {
         "real": ["Aggregate/Molecule builders", "OpenSystem.get_RelaxationTensor (stR TI/TD, operator form, secular; stF TI/TD; cRF with cut-off)",
@@ -312,9 +319,11 @@ class World:
     assumptions = [
         "a propagator's refinement factor (setDtRefinement, or propagate(Nref>1) as documented) is a setting of the propagator and part of the input",
         "only completing calls are generated; failing calls are not part of C15",
-        "theories that are broken on the pinned tree for every input (modified Redfield, time-dependent cRF, neF too slow) are not in the catalogue",
+        "theories that are broken on the pinned tree for every input (modified Redfield) are not in the catalogue; "
+        "non-equilibrium Foerster only in its time-dependent form (the one with an inhomogeneous term)",
     ]
-    rule = ("run = seeded history (<=12 ops) of tensor constructions (8 theory/option combinations), propagator constructions and "
+    rule = ("run = seeded history (<=18 ops) of tensor constructions (10 theory/option combinations, with and without recalculate=False, "
+            "inside and outside units contexts), propagator constructions (several per tensor / per hierarchy) and "
             "propagations (RDM, state vector, population, HEOM), evolution-superoperator calculations and in-between computations on "
             "shared dimer/trimer systems, propagators, tensors, hierarchies and states; non-trivial = >=1 object used as an input "
             "at least twice; distinct = distinct event-log digests among non-trivial runs")
@@ -341,12 +350,21 @@ class World:
             kinds = [k for k in kinds if k not in rng.sample(["propagate_sv", "propagate_pop", "pop_matrix", "make_heom", "eso", "rates", "thermal"], 3)]
         # most histories start with the usual pipeline (tensor -> propagator -> propagation), so that later ops find objects to reuse
         pipeline = ["tensor", "make_rdm", "propagate_rdm"] if rng.random() < 0.65 else []
+        # ... or with two propagators (two time axes) on ONE tensor used alternately with different initial states
+        alternate = bool(pipeline) and rng.random() < 0.3
+        if alternate:
+            pipeline = ["tensor", "make_rdm", "make_rdm", "propagate_rdm", "propagate_rdm", "propagate_rdm"]
+            alt_th = rng.choice(ths + [9, 9, 3, 5])
         for step in range(n + len(pipeline)):
             k = pipeline[step] if step < len(pipeline) else rng.choice(kinds)
             op = {"op": k, "sys": 0 if step < len(pipeline) else rng.randrange(nsys), "a": rng.randrange(16), "b": rng.randrange(16)}
+            if alternate and step < len(pipeline):
+                op["a"] = [0, 0, 0, 0, 1, 0][step]
             if k == "tensor":
-                op["th"] = rng.choice(ths)
+                op["th"] = alt_th if (alternate and step == 0) else rng.choice(ths)
                 op["unit"] = rng.choice([None, None, "1/cm", "1/cm", "eV"])
+                if rng.random() < 0.3:
+                    op["recalc"] = False
             elif k == "make_rdm":
                 op["nt"] = rng.choice([20, 50, 100])
                 op["mult"] = rng.choice([1, 1, 2])
@@ -357,6 +375,10 @@ class World:
                 op["nref_arg"] = rng.choice([1, 1, 2, 3])
                 op["new_state"] = rng.random() < 0.4
                 op["ctx"] = rng.choice([None, None, None, {"kind": "ham"}, {"kind": "other", "seed": rng.randrange(4)}])
+                if alternate and step < len(pipeline):
+                    op["state"] = {"kind": "site", "k": 1 if step == 4 else 0}
+                    op["new_state"] = False
+                    op["ctx"] = None
             elif k == "set_ref":
                 op["n"] = rng.choice([1, 2, 3, 5])
             elif k in ("propagate_sv", "propagate_pop", "pop_matrix"):
@@ -369,6 +391,7 @@ class World:
                 op["depth"] = rng.choice([1, 2, 2, 3])
                 op["nt"] = rng.choice([20, 40])
                 op["norwa"] = rng.random() < 0.2
+                op["share"] = rng.random() < 0.4
             elif k == "propagate_heom":
                 op["state"] = {"kind": rng.choice(["site", "coh"]), "k": rng.randrange(4)}
                 op["new_state"] = rng.random() < 0.4
@@ -437,7 +460,10 @@ class Runner:
             if k == "tensor":
                 unit = op.get("unit")
                 expr = {"kind": "tensor", "sys": j, "th": op["th"], "unit": unit}
-                tensors.append((j, op["th"], unit))
+                recalc = op.get("recalc", True)
+                if not recalc:
+                    expr["recalc"] = False
+                tensors.append((j, op["th"], unit, recalc))
                 plan.append(("tensor", expr, len(tensors) - 1))
             elif k == "rates":
                 plan.append(("pure", {"kind": "rates", "sys": j}, None))
@@ -452,7 +478,8 @@ class Runner:
                     th = tensors[tslot][1]
                 nt = min(op["nt"], spec["nt"] // op["mult"])
                 td = th is not None and THEORIES[th][1].get("time_dependent")
-                props.append({"sys": j, "th": th, "unit": None if tslot is None else tensors[tslot][2], "tslot": tslot, "nt": nt,
+                props.append({"sys": j, "th": th, "unit": None if tslot is None else tensors[tslot][2],
+                              "recalc": True if tslot is None else tensors[tslot][3], "tslot": tslot, "nt": nt,
                               "dt": spec["dt"] * op["mult"], "nref": 1,
                               "pdeph": None if (td or th is None) else op.get("pdeph")})
                 plan.append(("make_rdm", None, len(props) - 1))
@@ -479,6 +506,8 @@ class Runner:
                 expr = {"kind": "propagate_rdm", "prop": {"sys": P["sys"], "th": P["th"], "unit": P["unit"], "nt": P["nt"], "dt": P["dt"],
                                                           "pdeph": P.get("pdeph")},
                         "state": op["state"], "nref_setting": nref_setting, "nref_arg": nref_arg, "ctx": op.get("ctx")}
+                if not P.get("recalc", True):
+                    expr["prop"]["recalc"] = False
                 if nref_arg > 1:
                     P["nref"] = nref_arg            # documented: propagate(Nref>1) sets the refinement
                 plan.append(("propagate_rdm", expr, (pi, bool(op["new_state"]))))
@@ -494,7 +523,13 @@ class Runner:
                     # propagator refuses it; a refused call must leave the Hamiltonian it was given alone
                     plan.append(("refused_heom", {"kind": "refused_heom", "sys": j, "depth": op["depth"], "nt": op["nt"]}, None))
                     continue
-                heoms.append({"sys": j, "depth": op["depth"], "nt": op["nt"], "dt": 1.0})
+                mine = [h for h in heoms if h["sys"] == j]
+                if op.get("share") and mine:
+                    # a second propagator (another time axis) attached to a hierarchy that already has one
+                    old = mine[op["a"] % len(mine)]
+                    heoms.append({"sys": j, "depth": old["depth"], "nt": op["nt"] + 7, "dt": 1.0, "hy": old["hy"]})
+                else:
+                    heoms.append({"sys": j, "depth": op["depth"], "nt": op["nt"], "dt": 1.0, "hy": len(set(h["hy"] for h in heoms))})
                 plan.append(("make_heom", None, len(heoms) - 1))
             elif k == "propagate_heom":
                 if not heoms:
@@ -512,6 +547,8 @@ class Runner:
                 tslot = mine[op["a"] % len(mine)]
                 expr = {"kind": "eso", "sys": j, "th": tensors[tslot][1], "unit": tensors[tslot][2], "nt": op["nt"], "dt": spec["dt"] * 5,
                         "dense": op["dense"]}
+                if not tensors[tslot][3]:
+                    expr["recalc"] = False
                 plan.append(("eso", expr, tslot))
             else:
                 plan.append(("noop", None, None))
@@ -606,6 +643,8 @@ class Runner:
                     used["tensor%d" % P["tslot"]] = used.get("tensor%d" % P["tslot"], 0) + 1
                     if used["tensor%d" % P["tslot"]] >= 2:
                         self.ctx.probe("tensor_reused_by_two_propagators")
+                        if THEORIES[P["th"]][0] == "neF":
+                            self.ctx.probe("inhomogeneous_tensor_shared_by_two_propagators")
                         reuse += 1
                 self.ctx.ev(i, k, aux)
                 self.ctx.cov(k, P["th"], P["nt"], P["dt"])
@@ -650,6 +689,9 @@ class Runner:
                     raise Violation("call-fails-after-history", "op %d (%s): completes on fresh inputs but raised %s: %s after this history"
                                     % (i, k, type(e).__name__, e))
                 for name in ref:
+                    check(name in got, "result-depends-on-history",
+                          lambda: "op %d (%s %s): the result has no '%s' (fields %s), the same call on fresh inputs has"
+                          % (i, k, json.dumps(expr, sort_keys=True)[:200], name, sorted(got)))
                     a, b = numpy.asarray(got[name]), numpy.asarray(ref[name])
                     sc = max(1e-300, float(numpy.max(numpy.abs(b))) if b.size else 1.0)
                     same = a.shape == b.shape and (numpy.array_equal(a, b, equal_nan=True) or
@@ -673,6 +715,10 @@ class Runner:
                         self.ctx.probe("cutoff_theory")
                     if expr.get("unit"):
                         self.ctx.probe("tensor_requested_inside_units_context")
+                    if expr.get("recalc") is False and used.get("sys%d" % expr["sys"], 0) >= 1:
+                        self.ctx.probe("tensor_requested_without_recalculation_after_another")
+                    if name == "neF":
+                        self.ctx.probe("tensor_with_inhomogeneous_term")
                     u = used.setdefault("systh%d" % expr["sys"], set())
                     u.add(name)
                     if len(u) >= 2:
@@ -760,9 +806,9 @@ class Shared:
             self.plain[j] = qr.Hamiltonian(data=numpy.array(self.system(j).get_Hamiltonian().data))
         return self.plain[j]
 
-    def new_tensor(self, j, th, unit=None):
+    def new_tensor(self, j, th, unit=None, recalc=True):
         agg = self.system(j)
-        RT, ham = relaxation_tensor(agg, th, unit)
+        RT, ham = relaxation_tensor(agg, th, unit, recalc)
         self.tensor_list.append((RT, ham))
         return RT, ham
 
@@ -806,8 +852,14 @@ class Shared:
         from quantarhei.qm.liouvillespace.heom import KTHierarchy, KTHierarchyPropagator
         qr = self.r.qr
         agg = self.system(Hh["sys"])
-        hy = KTHierarchy(agg.get_Hamiltonian(), agg.get_SystemBathInteraction(), Hh["depth"])
-        self.heom_hy.append(hy)
+        if Hh["hy"] < len(self.heom_hy):
+            hy = self.heom_hy[Hh["hy"]]
+            self.r.ctx.probe("hierarchy_shared_by_two_propagators")
+        else:
+            if Hh["hy"] != len(self.heom_hy):
+                raise HarnessError("hierarchy numbering")
+            hy = KTHierarchy(agg.get_Hamiltonian(), agg.get_SystemBathInteraction(), Hh["depth"])
+            self.heom_hy.append(hy)
         self.heom_props.append(KTHierarchyPropagator(qr.TimeAxis(0.0, Hh["nt"], Hh["dt"]), hy))
 
     def heom_prop(self, expr):
